@@ -30,6 +30,7 @@ import Reamber.Lemmas.BMSTime
 import Reamber.Lemmas.BMSAssemble
 import Reamber.Lemmas.BMSReseat
 import Reamber.Lemmas.BMSLex
+import Reamber.Lemmas.BMSHeaderBook
 import Reamber.Props.C10
 
 namespace Reamber.BMS
@@ -724,9 +725,11 @@ final `tm.reseat()` — SUCCEEDS and returns a chart `c` with
 
 All hypotheses are about the FILE.  The success of the final reseat is no longer assumed: the reader's tempo list is
 proved to lie in C11's domain (`bms_tempo_in_reseat_dom`: grid-compatible on 96 ⇒ no D16 branch, no tiny gap), and
-C11's `fromBcSnap_reseat_keeps_times` is applied.  Shared with the specification: the header record `readHeader`
-(table selection and decimal parser) and one layout on both sides (`layouts_tie` relates generated and by-the-book
-tables). -/
+C11's `fromBcSnap_reseat_keeps_times` is applied.  The header record of `d` is the specification's own
+(`bookHeader`: `#TITLE`/`#ARTIST`/`#PLAYLEVEL`/`#LNOBJ`, the `#BPMxx`/`#WAVxx` tables by `bookTable`, `#BPM`, the other
+headers), proved equal to `_read_file_header`'s (`bookHeader_readHeader`).  Shared with the specification: the decimal
+parser `parseFloat` / `parseNat` / `parseHex2`, and one layout on both sides (`layouts_tie` relates generated and
+by-the-book tables). -/
 theorem read_eq_denote (lay : Layout) (hlay : LayoutOK lay) (lines : List Bytes) (d : Denotation)
     (hden : denoteText lay lines = some d)
     (hord : ∀ doc, bookDoc lines = some doc → LanesInOrder lay doc.notes)
@@ -735,7 +738,7 @@ theorem read_eq_denote (lay : Layout) (hlay : LayoutOK lay) (lines : List Bytes)
       (c.hits.map HitOut.toD).Perm d.hits ∧ (c.holds.map HoldOut.toD).Perm d.holds ∧ c.header = d.header ∧
       (c.tempo = d.tempo ∨ ((∃ h, d.tempo = h :: c.tempo) ∧ firstAtZero c.tempo = true)) ∧
       interleaveB 0 false (inPts 0 c.tempo) (outPtsOff c.bpms) = true := by
-  obtain ⟨hden', doc, hb, hp⟩ := denoteText_eq_denote lay lines d hden
+  obtain ⟨hden', doc, hb, hp, _, _⟩ := denoteText_eq_denote lay lines d hden
   apply read_eq_denote_shared lay hlay lines d hden' _ hgc
   intro doc' hdoc'
   rw [hp] at hdoc'
@@ -933,5 +936,45 @@ theorem header_retained (g : Array Rat) (lay lay' : Layout) (lines : List Bytes)
         · cases hd
         · injection hd with hd; rw [← hd]
       rw [hc, hdh]
+
+/-- **The metadata header fields are retained** (by the book, not through `readHeader`): for a text with a meaning,
+the chart `read` returns has title / artist / level / `#LNOBJ` id equal to the value of the LAST `#TITLE` /
+`#ARTIST` / `#PLAYLEVEL` / `#LNOBJ` line of the file (empty bytes when there is none — D43), initial tempo the
+decimal value of the last `#BPM` line, and the extended-tempo and sample tables, and the other headers, of the
+by-the-book header record. -/
+theorem metadata_retained (lay : Layout) (lines : List Bytes) (d : Denotation) (c : Chart)
+    (hden : denoteText lay lines = some d) (hr : read defaultGrid lay lines = .ok c) :
+    ∃ ls, allSome (lines.map bookLine) = some ls ∧
+      let defs := ls.filterMap Line.headerOf
+      c.header = d.header ∧
+      c.header.title = (lastValue "TITLE".toList defs).getD [] ∧
+      c.header.artist = (lastValue "ARTIST".toList defs).getD [] ∧
+      c.header.version = (lastValue "PLAYLEVEL".toList defs).getD [] ∧
+      c.header.lnEnd = (lastValue "LNOBJ".toList defs).getD [] ∧
+      (lastValue "BPM".toList defs).bind parseFloat = some c.header.bpm0 := by
+  obtain ⟨hden', doc, hb, hp, hbh, _⟩ := denoteText_eq_denote lay lines d hden
+  have hhd := header_retained defaultGrid lay lay lines c d hr hden'
+  unfold bookDoc at hb
+  cases hl : allSome (lines.map bookLine) with
+  | none => simp [hl] at hb
+  | some ls =>
+    simp only [hl, Option.map_some, Option.some.injEq] at hb
+    subst hb
+    refine ⟨ls, rfl, ?_⟩
+    simp only at hbh ⊢
+    have hget : ∀ k, dictGet? (bookTable (ls.filterMap Line.headerOf)) k = lastValue k (ls.filterMap Line.headerOf) :=
+      fun k => dictGet?_bookTable _ k
+    unfold bookHeader at hbh
+    split at hbh
+    · cases hbh
+    · split at hbh
+      · cases hbh
+      · split at hbh
+        · cases hbh
+        · rename_i bpm0 hb0
+          injection hbh with hbh
+          rw [hhd, ← hbh]
+          simp only [hget] at hb0 ⊢
+          exact ⟨trivial, trivial, trivial, trivial, trivial, hb0⟩
 
 end Reamber.BMS
